@@ -119,11 +119,23 @@ def runMeas (c : Case) : Res :=
           -- inradius = D V / S
           let inIv := ivDiv (ivScale (Q.ofInt d) volIv) surface
           bad := check "inradius" inIv ++ bad
-          bad := check "radius_ratio" (ivDiv rIv inIv) ++ bad
           -- normalised volume = V / (mean edge length)^D
           let els := edgeLens2 s
           let sumE := els.foldl (fun acc e => ivAdd acc (sqrtIv (Q.ofInt e * unitPow 2))) ⟨Q.ofInt 0, Q.ofInt 0⟩
           let avg := ivScale (qInv (Q.ofInt els.length)) sumE
-          bad := check "normalized_volume" (ivDiv volIv (ivPow avg d)) ++ bad
+          -- the quality functions document a scale-aware degeneracy threshold
+          -- eps = max(1e-12, 1e-8 * mean edge length) (geometry/quality.rs): radius_ratio refuses
+          -- inradius < eps, normalized_volume refuses volume < eps, mean edge < eps or
+          -- (mean edge)^D < eps.  With a factor-2 collar a DegenerateCell answer there is accepted.
+          let eps : Q := let a := (⟨1, 10 ^ 8⟩ : Q) * avg.hi; if Q.lt a ⟨1, 10 ^ 12⟩ then ⟨1, 10 ^ 12⟩ else a
+          let eps2 := Q.ofInt 2 * eps
+          let refused (n : String) : Bool := match valOf c n with
+            | some (.error e) => e == "err:DegenerateCell"
+            | _ => false
+          if refused "radius_ratio" && Q.lt inIv.lo eps2 then stats := "meas.quality.refused" :: stats
+          else bad := check "radius_ratio" (ivDiv rIv inIv) ++ bad
+          if refused "normalized_volume" && (Q.lt volExact eps2 || Q.lt avg.lo eps2 || Q.lt (ivPow avg d).lo eps2) then
+            stats := "meas.quality.refused" :: stats
+          else bad := check "normalized_volume" (ivDiv volIv (ivPow avg d)) ++ bad
       if !bad.isEmpty then return { status := "ORACLE", detail := " ; ".intercalate (bad.reverse.take 5), stats := stats }
       return { status := "ok", stats := stats }
